@@ -422,6 +422,7 @@ func (a *Adv) MembershipProbes() int {
 		}
 	}
 	n += a.ephemeralOtherKindProbe()
+	n += a.ephemeralSiafundProbe()
 	return n
 }
 
@@ -481,6 +482,82 @@ func (a *Adv) ephemeralOtherKindProbe() int {
 			}
 			SignV2(a.CS, &t2, SignOpts{})
 			if a.emit(mk(t1, t2, t3), "v2-parent/siacoin-ephemeral/id-of-attestation-created-in-block", "reject", nil, nil) {
+				n++
+			}
+		}
+		return n
+	}
+	return 0
+}
+
+// ephemeralSiafundProbe: from EphemeralOutputHeight on a siafund output created earlier in the block cannot be spent in
+// that block at all - neither as it was created nor, a fortiori, with a misstated value. A fresh block of two v2
+// transactions: T1 moves a stored siafund output to a key of ours, T2 spends T1's output as an ephemeral parent (genuine,
+// and with its value doubled and paid out). Control: the block with T1 alone is accepted. The label says when the
+// block sits exactly at the height from which the rule applies.
+func (a *Adv) ephemeralSiafundProbe() int {
+	E := a.G.C.Net.HardforkV2.EphemeralOutputHeight
+	if !a.v2Allowed() || a.Child < E {
+		return 0
+	}
+	used := map[types.SiafundOutputID]bool{}
+	for _, t := range a.Honest.Transactions {
+		for _, in := range t.SiafundInputs {
+			used[in.ParentID] = true
+		}
+	}
+	for _, t := range a.Honest.V2Transactions() {
+		for _, in := range t.SiafundInputs {
+			used[in.Parent.ID] = true
+		}
+	}
+	median := MedianTimestamp(a.CS)
+	at := ""
+	if a.Child == E {
+		at = "/at-the-height-the-rule-starts"
+	}
+	for _, el := range a.G.C.Store.SortedSF() {
+		lock, known := a.G.W.Locks[el.SiafundOutput.Address]
+		if !known || used[el.ID] || el.SiafundOutput.Value == 0 || el.SiafundOutput.Value > 1<<40 || !lock.Spendable(true, a.Child, median) {
+			continue
+		}
+		sp, ok := Satisfy(lock.Policy, types.Hash256{}, a.CS.Index.Height, median)
+		if !ok {
+			continue
+		}
+		pk := MakeLock(LockSpec{Kind: NumV1Kinds, K1: 1})
+		psp, ok := Satisfy(pk.Policy, types.Hash256{}, a.CS.Index.Height, median)
+		if !ok || !pk.Spendable(true, a.Child, median) {
+			return 0
+		}
+		t1 := types.V2Transaction{
+			SiafundInputs:  []types.V2SiafundInput{{Parent: el.Copy(), SatisfiedPolicy: sp, ClaimAddress: types.Address{0xC1}}},
+			SiafundOutputs: []types.SiafundOutput{{Value: el.SiafundOutput.Value, Address: pk.Address()}},
+		}
+		SignV2(a.CS, &t1, SignOpts{})
+		y := t1.EphemeralSiafundOutput(0)
+		mk := func(txns ...types.V2Transaction) types.Block {
+			blk := CloneBlock(a.Honest)
+			if blk.V2 == nil {
+				blk.V2 = &types.V2BlockData{}
+			}
+			blk.V2.Transactions = append(blk.V2.Transactions, txns...)
+			return blk
+		}
+		n := 0
+		a.emit(mk(t1), "fresh-single-spend/v2-siafund-moved-to-own-key", "accept", nil, nil)
+		for _, forged := range []bool{false, true} {
+			parent, name := y.Copy(), "genuine"
+			if forged {
+				parent.SiafundOutput.Value *= 2
+				name = "value-doubled"
+			}
+			t2 := types.V2Transaction{
+				SiafundInputs:  []types.V2SiafundInput{{Parent: parent, SatisfiedPolicy: psp, ClaimAddress: types.Address{0xC2}}},
+				SiafundOutputs: []types.SiafundOutput{{Value: parent.SiafundOutput.Value, Address: types.Address{0xE6}}},
+			}
+			SignV2(a.CS, &t2, SignOpts{})
+			if a.emit(mk(t1, t2), "v2-parent/siafund-ephemeral/"+name+at, "reject", nil, nil) {
 				n++
 			}
 		}
